@@ -36,7 +36,7 @@ func pubkeyCacheMethods(p *Prog) (*packages.Package, map[string]*ast.FuncDecl) {
 			}
 		}
 	}
-	if len(ms) < 5 {
+	if len(ms) < 3 {
 		anchorFail("PubkeyCache methods not found (%d)", len(ms))
 	}
 	return pk, ms
@@ -54,14 +54,44 @@ func ruleCacheParent(c *Ctx) {
 		}
 		recv := info.Defs[fd.Recv.List[0].Names[0]]
 		parents := parentMap(fd.Body)
-		isTrusted := func(e ast.Expr) bool { return isRecvField(info, e, recv, "trustedParentCount") }
+		defs := singleDefs(info, fd.Body)
+		// resolved forms: locals that name a field of the receiver (base := pc.trustedParentCount, ancestor := pc.parent)
+		// are read through; the receiver is `recv`
+		keep := map[string]bool{} // variables that stand for themselves (the parent's answer)
+		poly := func(e ast.Expr) (Poly, bool) {
+			polyRecv = recv
+			polyReach, polyPaths = reachingDefs(info, fd.Body), true
+			defer func() { polyRecv, polyReach, polyPaths = nil, nil, false }()
+			return exprPoly(info, e, defs, keep, 0)
+		}
+		trusted := polyAtom("recv.trustedParentCount")
+		says := func(f pathFact, a, b Poly, op token.Token) bool {
+			fop := f.be.Op
+			if f.neg {
+				fop = negOp[fop]
+			}
+			if _, isCmp := negOp[fop]; !isCmp {
+				return false
+			}
+			px, ok1 := poly(f.be.X)
+			py, ok2 := poly(f.be.Y)
+			if !ok1 || !ok2 {
+				return false
+			}
+			got, want := polyAdd(px, py, -1), polyAdd(a, b, -1)
+			return canonCut(got, fop) == canonCut(want, op) && cutSide(got, fop) == cutSide(want, op)
+		}
+		isParent := func(e ast.Expr) bool {
+			e = resolveLocal(info, e, defs, 3)
+			return isRecvField(info, e, recv, "parent")
+		}
 		ast.Inspect(fd.Body, func(nd ast.Node) bool {
 			call, ok := nd.(*ast.CallExpr)
 			if !ok {
 				return true
 			}
 			sel, ok := call.Fun.(*ast.SelectorExpr)
-			if !ok || !isRecvField(info, sel.X, recv, "parent") {
+			if !ok || !isParent(sel.X) {
 				return true
 			}
 			n++
@@ -74,29 +104,20 @@ func ruleCacheParent(c *Ctx) {
 				}
 			}
 			if idxArg != nil {
-				// must be on the `arg < trustedParentCount` side of a comparison
-				argStr := types.ExprString(idxArg)
+				// on the way to the call the argument is known to be below trustedParentCount (any spelling: an
+				// enclosing branch, an earlier exit, through locals)
 				okSide := false
-				var cur ast.Node = call
-				for p := parents[cur]; p != nil; cur, p = p, parents[p] {
-					ifs, ok := p.(*ast.IfStmt)
-					if !ok {
-						continue
-					}
-					be, ok := ast.Unparen(ifs.Cond).(*ast.BinaryExpr)
-					if !ok || types.ExprString(be.X) != argStr || !isTrusted(be.Y) {
-						continue
-					}
-					inBody := cur == ifs.Body
-					inElse := cur == ifs.Else
-					if inBody && be.Op == token.LSS || inElse && be.Op == token.GEQ {
-						okSide = true
+				if pa, ok := poly(idxArg); ok {
+					for _, f := range pathFactsAt(parents, call) {
+						if says(f, pa, trusted, token.LSS) {
+							okSide = true
+						}
 					}
 				}
 				if okSide {
-					c.ok(key, call.Pos(), "delegates only for %s < trustedParentCount", argStr)
+					c.ok(key, call.Pos(), "delegates only for %s < trustedParentCount", types.ExprString(idxArg))
 				} else {
-					c.bad(key, call.Pos(), "index-keyed lookup is delegated to the parent without confining %s to the trusted prefix (< trustedParentCount)", argStr)
+					c.bad(key, call.Pos(), "index-keyed lookup is delegated to the parent without confining %s to the trusted prefix (< trustedParentCount)", types.ExprString(idxArg))
 				}
 				return true
 			}
@@ -105,42 +126,130 @@ func ruleCacheParent(c *Ctx) {
 				c.bad(key, call.Pos(), "the parent's answer is returned unfiltered: an index >= trustedParentCount exists only on the sibling history the cache forked away from (and lets AddValidator of a conflicting pair recurse without end)")
 				return true
 			}
-			// assigned to variables: find a comparison of a ValidatorIndex-typed assigned variable with trustedParentCount
+			// the index it answered, kept in a variable: every return that hands that variable out as found (second
+			// result not the constant false) stands where the variable is known to be below trustedParentCount; the
+			// function's named results are such a variable too
 			var resVars []types.Object
 			if as, ok := parents[call].(*ast.AssignStmt); ok {
 				for _, l := range as.Lhs {
 					if id, ok := l.(*ast.Ident); ok {
-						o := info.Defs[id]
-						if o == nil {
-							o = info.Uses[id]
-						}
-						if o != nil && isValIdx(o.Type()) {
+						if o := info.ObjectOf(id); o != nil && isValIdx(o.Type()) {
 							resVars = append(resVars, o)
 						}
 					}
 				}
 			}
-			filtered := false
+			if len(resVars) == 0 {
+				c.bad(key, call.Pos(), "the parent's answer is not kept where it could be compared with trustedParentCount")
+				return true
+			}
+			for _, o := range resVars {
+				keep[o.Name()] = true
+			}
+			defer func() {
+				for k := range keep {
+					delete(keep, k)
+				}
+			}()
+			filtered, leak := false, token.NoPos
 			ast.Inspect(fd.Body, func(m ast.Node) bool {
-				be, ok := m.(*ast.BinaryExpr)
-				if !ok || m.Pos() < call.End() {
+				if _, isLit := m.(*ast.FuncLit); isLit {
+					return false
+				}
+				r, ok := m.(*ast.ReturnStmt)
+				if !ok || r.Pos() < call.End() {
 					return true
 				}
-				if be.Op != token.GEQ && be.Op != token.LSS {
+				var handed types.Object
+				found := true
+				switch len(r.Results) {
+				case 0:
+					// bare return of named results
+					if fd.Type.Results != nil {
+						for _, f := range fd.Type.Results.List {
+							for _, nm := range f.Names {
+								for _, o := range resVars {
+									if info.Defs[nm] == o {
+										handed = o
+									}
+								}
+							}
+						}
+					}
+				case 2:
+					if id, ok := ast.Unparen(r.Results[0]).(*ast.Ident); ok {
+						for _, o := range resVars {
+							if info.Uses[id] == o {
+								handed = o
+							}
+						}
+					}
+					if tv, ok := info.Types[r.Results[1]]; ok && tv.Value != nil && tv.Value.String() == "false" {
+						found = false
+					}
+				}
+				if handed == nil || !found {
 					return true
 				}
-				if id, ok := ast.Unparen(be.X).(*ast.Ident); ok && isTrusted(be.Y) {
-					for _, o := range resVars {
-						if info.Uses[id] == o {
-							filtered = true
+				below, notFound := false, false
+				for _, f := range pathFactsAt(parents, r) {
+					if says(f, polyAtom(handed.Name()), trusted, token.LSS) {
+						below = true
+					}
+				}
+				// or: the answer was not found (the `ok` it came with is known false here)
+				for _, cd := range pathCondsAt(parents, r) {
+					if id, ok := cd.e.(*ast.Ident); ok && cd.neg {
+						if b, ok := info.TypeOf(id).Underlying().(*types.Basic); ok && b.Kind() == types.Bool {
+							notFound = true
 						}
 					}
 				}
+				if below {
+					filtered = true
+				} else if !notFound && leak == token.NoPos {
+					leak = r.Pos()
+				}
 				return true
 			})
-			if filtered {
+			// the original form: `if ok && index >= trusted { return 0, false }` followed by a return of the variables
+			if !filtered {
+				ast.Inspect(fd.Body, func(m ast.Node) bool {
+					is, ok := m.(*ast.IfStmt)
+					if !ok || is.Pos() < call.End() || !terminates(is.Body) {
+						return true
+					}
+					for _, o := range resVars {
+						var hit bool
+						var visit func(e ast.Expr)
+						visit = func(e ast.Expr) {
+							be, ok := ast.Unparen(e).(*ast.BinaryExpr)
+							if !ok {
+								return
+							}
+							if be.Op == token.LAND {
+								visit(be.X)
+								visit(be.Y)
+								return
+							}
+							if says(pathFact{be: be}, polyAtom(o.Name()), trusted, token.GEQ) {
+								hit = true
+							}
+						}
+						visit(is.Cond)
+						if hit {
+							filtered, leak = true, token.NoPos
+						}
+					}
+					return true
+				})
+			}
+			switch {
+			case filtered && leak == token.NoPos:
 				c.ok(key, call.Pos(), "returned index is compared with trustedParentCount")
-			} else {
+			case filtered:
+				c.bad(key, leak, "a return hands out the parent's answer where it is not known to be below trustedParentCount")
+			default:
 				c.bad(key, call.Pos(), "the parent's answer is not compared with trustedParentCount before use")
 			}
 			return true
@@ -623,6 +732,39 @@ func ruleCacheUnits(c *Ctx) {
 			c.ok(key, pos, "absolute validator index")
 		}
 	}
+	// a length of idx2pub counts positions, a validator index is absolute: a comparison (resolved form) that weighs
+	// len(recv.idx2pub) against anything weighs recv.trustedParentCount along with it (index ~ trusted + len, or
+	// index - trusted ~ len); comparing an absolute index with the bare length is off by the fork-out point
+	for _, mn := range sortedKeys(ms) {
+		fn := "common.PubkeyCache." + mn
+		seenPos := map[token.Pos]bool{}
+		for _, st := range collectCmps(c.P)[fn] {
+			if st.from != "" || seenPos[st.pos] {
+				continue
+			}
+			seenPos[st.pos] = true
+			cl, hasLen := st.pr["len(recv.idx2pub)"]
+			if !hasLen || st.full {
+				continue
+			}
+			// only comparisons that involve a validator index at all (lengths compared with lengths/constants are not about units)
+			involvesIndex := false
+			for a := range st.pr {
+				if a != "" && a != "len(recv.idx2pub)" && a != "recv.trustedParentCount" {
+					involvesIndex = true
+				}
+			}
+			if !involvesIndex {
+				continue
+			}
+			key := "PubkeyCache." + mn + ":units(" + st.text + ")"
+			if st.pr["recv.trustedParentCount"] == cl {
+				c.ok(key, st.pos, "the length is weighed together with trustedParentCount")
+			} else {
+				c.bad(key, st.pos, "`%s` compares a validator index with the bare length of idx2pub (resolved: %s): positions in idx2pub are relative to trustedParentCount, so on a forked cache the test is off by the fork-out point", st.text, canonCut(st.pr, st.op))
+			}
+		}
+	}
 	for _, mn := range sortedKeys(ms) {
 		fd := ms[mn]
 		if len(fd.Recv.List[0].Names) != 1 {
@@ -636,8 +778,12 @@ func ruleCacheUnits(c *Ctx) {
 					return true
 				}
 				key := "PubkeyCache." + mn + ":idx2pub[" + types.ExprString(x.Index) + "]"
-				be, ok := ast.Unparen(x.Index).(*ast.BinaryExpr)
-				if ok && be.Op == token.SUB && isRecvField(info, be.Y, recv, "trustedParentCount") {
+				// the position in its resolved form (locals read through, receiver `recv`): <absolute> - recv.trustedParentCount
+				polyRecv = recv
+				polyReach, polyPaths = reachingDefs(info, fd.Body), true
+				ip, okp := exprPoly(info, x.Index, singleDefs(info, fd.Body), nil, 0)
+				polyRecv, polyReach, polyPaths = nil, nil, false
+				if okp && ip["recv.trustedParentCount"] == -1 && len(ip) >= 2 {
 					c.ok(key, x.Pos(), "position relative to trustedParentCount")
 				} else {
 					c.bad(key, x.Pos(), "idx2pub is positioned with %s, which is not `index - trustedParentCount`: on a forked cache the wrong entry is addressed", types.ExprString(x.Index))
